@@ -55,6 +55,7 @@ def parseCmd : List String → Option Cmd
 
 def parseOp : List String → Option Op
   | ["enable", y, u] => do some (.enableUser (← y.toNat?) u)
+  | ["cfguser", y, u, p, a] => do some (.addUserBypass (← y.toNat?) u p (← parseBool a))
   | ["llogin", y, u, p] => do some (.localLogin (← y.toNat?) u p)
   | ["llogout", y] => do some (.localLogout (← y.toNat?))
   | ["tick"] => some .tick
